@@ -120,16 +120,21 @@ def _evaluate_inner(node, env, strict, info):
                 return np.mod(a, b)
         raise DontCare()
     if isinstance(node, ast.Compare):
-        if len(node.ops) != 1:
-            raise DontCare()
-        a = evaluate(node.left, env, strict)
-        b = evaluate(node.comparators[0], env, strict)
-        if info is not None and _near_not_at(np.asarray(a, dtype=float) - np.asarray(b, dtype=float), info):
-            info["fragile"] = True
-        if info is not None and np.any(np.asarray(a, dtype=float) == np.asarray(b, dtype=float)):
-            info["tie"] = True  # exact equality of the two sides (callers that recompute the operands themselves may want to skip)
-        f = {ast.Lt: np.less, ast.LtE: np.less_equal, ast.Gt: np.greater, ast.GtE: np.greater_equal, ast.Eq: np.equal, ast.NotEq: np.not_equal}[type(node.ops[0])]
-        return f(a, b) * 1.0
+        # a chain a < b < c is (a < b) and (b < c): the product of the pairwise comparisons
+        operands = [evaluate(node.left, env, strict)] + [evaluate(c, env, strict) for c in node.comparators]
+        out = 1.0
+        for a, b, op in zip(operands[:-1], operands[1:], node.ops):
+            if type(op) not in (ast.Lt, ast.LtE, ast.Gt, ast.GtE, ast.Eq, ast.NotEq):
+                raise DontCare()
+            if info is not None and _near_not_at(np.asarray(a, dtype=float) - np.asarray(b, dtype=float), info):
+                info["fragile"] = True
+            if info is not None and np.any(np.asarray(a, dtype=float) == np.asarray(b, dtype=float)):
+                info["tie"] = True  # exact equality of the two sides (callers that recompute the operands themselves may want to skip)
+            f = {ast.Lt: np.less, ast.LtE: np.less_equal, ast.Gt: np.greater, ast.GtE: np.greater_equal, ast.Eq: np.equal, ast.NotEq: np.not_equal}[type(op)]
+            out = out * (f(a, b) * 1.0)
+        if info is not None and len(node.ops) > 1:
+            info["chain"] = True
+        return out
     if isinstance(node, ast.Call):
         name = node.func.id
         args = [evaluate(a, env, strict) for a in node.args]
